@@ -65,14 +65,34 @@ Theorem C18_null_eq_wire_xml_when_first : forall xfer tns U dcs ms key d f args 
   /\ app_trace (snd (wire_call xfer tns U PXml ms key [] f args kw)) = ref_trace U d None f args kw.
 Proof. exact null_eq_wire_xml_when_first. Qed.
 
-(** the region excluded for the dict-document protocols is a real disagreement (known finding) *)
+(** the region excluded for the dict-document protocols while HierDictDocument.deserialize looks a
+    bare request up under the type name ([hier_bare_lookup = LkTypeName]) is a real disagreement:
+    the function is entered with [] where NullServer enters it with the arguments of the call *)
 Theorem C18_hier_bare_request_refuted :
-  exists U dcs ms key d args kw,
+  exists U dcs ms key d args kw r,
     decorate_all U dcs = Ok ms /\ find_method ms key = Some d /\ null_supported U d /\
-    call_ok (param_names U d) args kw /\
-    forall f, ~ In (EvUser None (delivered U d args kw)) (snd (wire_call xfer_id [117] U PHier ms key [] f args kw))
-              /\ In (EvUser None (delivered U d args kw)) (snd (null_call U ms key None f args kw)).
+    call_ok (param_names U d) args kw /\ client_request U d args kw = Ok r /\
+    (do io <- srv_in_object_gen xfer_id LkTypeName U PHier d r; do io' <- pr_in_stage U d io; args_of io')
+      = Ok [PVal (VList [])] /\
+    delivered U d args kw <> [PVal (VList [])] /\
+    (do io <- null_in_object null_ti_source U d args kw; do io' <- pr_in_stage U d io; args_of io')
+      = Ok (delivered U d args kw).
 Proof. exact hier_bare_request_refuted. Qed.
+
+(** full strength against the dict-document protocols as soon as the body is looked up under the
+    message name *)
+Theorem C18_null_eq_wire_hier_when_sub_name : forall xfer tns U dcs ms key d f args kw,
+  hier_bare_lookup = LkSubName ->
+  decorate_all U dcs = Ok ms -> find_method ms key = Some d ->
+  null_supported U d ->
+  call_ok (param_names U d) args kw ->
+  codec_carries xfer U PHier d None f args kw ->
+  fun_fits U d None f args kw ->
+  outcome_rel (fst (null_call U ms key None f args kw))
+              (fst (wire_call xfer tns U PHier ms key [] f args kw))
+  /\ app_trace (snd (null_call U ms key None f args kw)) = ref_trace U d None f args kw
+  /\ app_trace (snd (wire_call xfer tns U PHier ms key [] f args kw)) = ref_trace U d None f args kw.
+Proof. exact null_eq_wire_hier_when_sub_name. Qed.
 
 (** keyword and positional invocation are equivalent *)
 Theorem C18_kw_eq_pos : forall U dcs ms key d h f args kw,
